@@ -1,4 +1,5 @@
 import Acra.Drv.SpecFTI
+import Acra.Drv.SpecGolay7
 namespace Acra.Drv
-def specFuncs : List Func := specFuncsFTI
+def specFuncs : List Func := specFuncsFTI ++ specFuncsGolay7
 end Acra.Drv
